@@ -10,6 +10,10 @@ slots x_to=<slot> x_pre=<H32> x_root=<H32> <FLAT STATE>            ProcessSlots 
 block x_slot=<slot> x_fork=<name> x_ssz=<hex> x_pre=<H32> x_root=<H32> <FLAT STATE>     ProcessSlots + block
 genfail x_pre=<H32>     written by the generator when it could not extend a chain on the code under test;
                         the model answers `ok`, the Go side `generator-could-not-extend-chain` (a reported disagreement)
+retain x_pre=<H32>      the Go side keeps (copy of the state, clone of the live context); the model keeps the state
+recheck x_r=<H32>       re-dump the retained pair whose state root is `x_r`: answer `ok root=<r> fresh=same <ctxOf dump>`
+sibling x_r=<H32> x_to=<slot> x_root=<H32> <FLAT STATE>   the retained pair `x_r` is advanced by empty slots (another
+                        continuation than the live chain); answered like `recheck` for the new state
 reload x_pre=<H32>      from here on a second pair (state reloaded from SSZ bytes, fresh context) runs along
 endreload
 ```
@@ -32,12 +36,19 @@ structure DState where
   prev : Option State := none
   /-- the code-shaped model's live context (`rotate` / `afterDeposit` / `afterUpgrade` applied line by line) -/
   live : Option Ctx := none
+  /-- retained pairs: (state root, state) of older states whose cloned contexts the Go side keeps -/
+  kept : List (String × State) := []
 
 def render (root : String) (shadow : Bool) (hyps : String) (c : SM Ctx) : String :=
   let head := s!"ok root={root} fresh=same reload={if shadow then "same" else "none"} hyps={hyps} "
   match c with
   | .ok c => head ++ dumpAbbrev c
   | .error _ => head ++ "ctx-err"
+
+def renderKept (root : String) (c : SM Ctx) : String :=
+  match c with
+  | .ok c => s!"ok root={root} fresh=same " ++ dumpAbbrev c
+  | .error _ => s!"ok root={root} fresh=err-fresh ctx-err"
 
 /-- the state `RotateEpochs` sees when the same call of `ProcessSlots` also upgrades the fork: the upgrade keeps
 registry, mixes and slot, and (altair) creates the sync committees afterwards -/
@@ -91,6 +102,31 @@ def step (d : DState) (line : String) : DState × String :=
         ({ d with root := some root, prev := some st, live := model.toOption },
           render root d.shadow hyps model ++ " | " ++ render root d.shadow hyps spec)
       | _, _, _, _ => bad
+    else if op = "retain" then
+      let (kv, extra) := parseKV rest
+      match d.prev, d.root with
+      | some prev, some root =>
+        if !extra.isEmpty || kv.get? "x_pre" ≠ some root then bad else ({ d with kept := d.kept ++ [(root, prev)] }, "ok")
+      | _, _ => bad
+    else if op = "recheck" then
+      let (kv, extra) := parseKV rest
+      match d.cfg, kv.get? "x_r" with
+      | some cfg, some r =>
+        match d.kept.find? (·.1 = r) with
+        | some (_, st) => if !extra.isEmpty then bad else (d, renderKept r (ctxOf cfg st))
+        | none => bad
+      | _, _ => bad
+    else if op = "sibling" then
+      let (kv, extra) := parseKV rest
+      match d.cfg, kv.get? "x_r", kv.get? "x_root", parseState kv, (kv.get? "x_to").bind String.toNat? with
+      | some cfg, some r, some root, .ok st, some _ =>
+        if !extra.isEmpty || !(d.kept.any (·.1 = r)) then bad else
+        -- the first retained pair with that root moves on to the line's state
+        let rec upd : List (String × State) → List (String × State)
+          | [] => []
+          | (k, s0) :: t => if k = r then (root, st) :: t else (k, s0) :: upd t
+        ({ d with kept := upd d.kept }, renderKept root (ctxOf cfg st))
+      | _, _, _, _, _ => bad
     else if op = "genesisfail" then (d, "ok")   -- as `genfail`, for a chain whose genesis could not be built
     else if op = "genfail" then
       -- the generator could not extend a chain: on correct code this line is never generated
